@@ -180,13 +180,15 @@ pub fn run(run: &Run) {
         run.count(&format!("values_{}", f.name), vals.len() as u64);
         run.sample(json!({"format": f.name, "tokens": emit::value(&f, &vals[vals.len() - 5])}));
         vals.par_iter().for_each(|v| {
-            let _w = crate::watch::enter(&v.show());
             let toks = emit::value(&f, v);
+            // one watchdog case per value - except for very wide values, where every single parse is its own case
+            let wide = toks.len() > 120;
+            let _w = if wide { None } else { Some(crate::watch::enter(&v.show())) };
             let expect = v.canon();
             let feats = c01::features(&f, v);
             let reference = emit::join(&toks, "");
             let mut ss = vec![];
-            if toks.len() <= 120 {
+            if !wide {
                 spacings(&toks, " ", &mut ss);
             } else {
                 // very wide values (hundreds of tokens; the lexical parser's cost grows with components x remaining
@@ -210,7 +212,7 @@ pub fn run(run: &Run) {
                     run.eval(1);
                     match check(&f, p, s, &expect) {
                         Err(msg) => run.violation(&format!("[{}] {}", f.name, msg), json!({"op": "spacing", "format": f.name, "pipeline": format!("{p:?}"), "input": s, "value": v.to_json()}), &feats),
-                        Ok(()) if p == Pipe::LexFold => {
+                        Ok(()) if p == Pipe::LexFold && !wide => {
                             // the other public routes into the lexical parser (free functions, the
                             // term-only entry) must treat the same spacing the same way
                             run.eval(1);
@@ -254,7 +256,7 @@ pub fn run(run: &Run) {
             // quick: tab, newline, ideographic space, no-break space; thorough: every Unicode White_Space
             let quick_ws = ["\t", "\n", "\u{3000}", "\u{a0}"];
             let all_ws = ["\t", "\n", "\u{b}", "\u{c}", "\r", " ", "\u{85}", "\u{a0}", "\u{1680}", "\u{2000}", "\u{2001}", "\u{2002}", "\u{2003}", "\u{2004}", "\u{2005}", "\u{2006}", "\u{2007}", "\u{2008}", "\u{2009}", "\u{200a}", "\u{2028}", "\u{2029}", "\u{202f}", "\u{205f}", "\u{3000}"];
-            let ws_list: &[&str] = if tier == Tier::Thorough || toks.len() <= 3 { &all_ws } else { &quick_ws };
+            let ws_list: &[&str] = if wide { &[] } else if tier == Tier::Thorough || toks.len() <= 3 { &all_ws } else { &quick_ws };
             for ws in ws_list.iter().copied() {
                 let all: Vec<&str> = vec![ws; toks.len() + 1];
                 let s = emit::join_with(&toks, &all);
